@@ -99,7 +99,7 @@ def io_oracle(line, out):
 def run(ctx):
     ctx.proof("DispatchVerif.Props.C14", THEOREMS)
     ctx.assumptions += ["read() returns between 1 and the requested number of bytes, 0 at end of file, or fails (kernel contract)",
-                        "channel orchestration other than the barrier and cleanup clauses (submission order of stream operations): observed, not proved", "the DOP_DELIVER interval timer is not modelled (no interval set by the harness)"]
+                        "channel orchestration other than the barrier and cleanup clauses (submission order of stream operations): observed, not proved", "the DOP_DELIVER interval timer is not modelled in Lean; it is exercised at L-api only (c14_io sets a 1-5 ms interval, strict or not, on every third channel; c14_ebadf on every second file channel)"]
     drv = ctx.driver()
     h = ctx.harness("io", extra=["-ldl"])
     lines = gen_lines(ctx.rng.fork("io"), 6000 if ctx.thorough else 700)
